@@ -447,6 +447,14 @@ func (s *State) Assume(t *Term) {
 	if t == nil || t.IsTrue() {
 		return
 	}
+	if t.Size() < 40 {
+		ts := t.String()
+		for i := len(s.path) - 1; i >= 0 && i >= len(s.path)-200; i-- {
+			if p := s.path[i]; p == t || (p.Size() == t.Size() && p.String() == ts) {
+				return
+			}
+		}
+	}
 	s.path = append(s.path, t)
 	s.pk = append(s.pk, false)
 }
